@@ -32,6 +32,12 @@ func init() {
 	extraOps["nuc.match"] = func(a []sexp) string {
 		return encSegs(gts.Match(gts.New(nil, nil, decBytes(a[0])), gts.New(nil, nil, decBytes(a[1]))))
 	}
+	// nuc.matchok: Match on ANY bytes, answered OK when it returns (a panic is turned into PANIC by execOp);
+	// the values for bytes >= 0x80 are known finding K18B's matter, the "never crashes" clause is not
+	extraOps["nuc.matchok"] = func(a []sexp) string {
+		gts.Match(gts.New(nil, nil, decBytes(a[0])), gts.New(nil, nil, decBytes(a[1])))
+		return "OK"
+	}
 	extraOps["nuc.search"] = func(a []sexp) string {
 		return encSegs(gts.Search(gts.New(nil, nil, decBytes(a[0])), gts.New(nil, nil, decBytes(a[1]))))
 	}
@@ -573,6 +579,28 @@ func propC18(r *Run) {
 			c18Search(r, sq, append([]byte(nil), sq[a:b]...), "random/non-ascii")
 		}
 		r.notes = append(r.notes, "search (not match) also over the bytes a C 0x80 0xC3 0xA9 0xFF exhaustively up to length 4 and on 600 random sequences with bytes >= 0x80 and planted hits")
+		// MATCH with bytes >= 0x80: "query bytes outside the alphabet are literals and never crash" — the crash half
+		// holds for every byte (the values are K18B's); seeded W40-2: QuoteMeta(string([]byte{c})) made
+		// regexp.MustCompile panic on a query byte that is not valid UTF-8
+		nok := 0
+		chk := func(sq, q []byte) {
+			line := "nuc.matchok " + encBytes(sq) + " " + encBytes(q)
+			out := r.op(line)
+			nok++
+			r.eval("mok|"+line, true)
+			if out != "OK" {
+				r.fail(Failure{Oracle: "match never crashes (query bytes outside the alphabet are literals), also for bytes >= 0x80", Op: line, Got: out, Want: "OK"})
+			}
+		}
+		for c := 0x80; c <= 0xFF; c++ {
+			chk([]byte{'a', byte(c), 'c'}, []byte{byte(c)})
+			chk([]byte{'a', byte(c), 'c'}, []byte{'a', byte(c)})
+			chk([]byte("acgt"), []byte{byte(c), 'n'})
+		}
+		for _, q := range c18Strings([]byte{'c', 'n', 0xC3, 0xA9, 0xFF, 0x80}, 1, 3) {
+			chk([]byte("ac\xc3\xa9g\xffn"), q)
+		}
+		r.notes = append(r.notes, fmt.Sprintf("match never crashes: %d cases with query / sequence bytes >= 0x80 (every byte 0x80..0xFF alone, behind a letter, in front of n; all queries over c n 0xC3 0xA9 0xFF 0x80 up to length 3)", nok))
 	}
 	r.notes = append(r.notes, "exhaustive: complement/transcribe on all 256 byte values; match on all 32x32 letter pairs and on every ASCII query byte x ASCII sequence byte; spec.baseset on all 256 bytes")
 
